@@ -365,7 +365,19 @@ def build_harness(release=False):
         except OSError:
             pass
         cmd = ["cargo", "build", "--offline", "--quiet"] + (["--release"] if release else [])
-        rc, out, err, dt = run(cmd, cwd=HARNESS, timeout=1500)
+        hdir, env = HARNESS, None
+        if os.path.realpath(REPO) != "/repo":
+            # development aid (VERIF_REPO=<another checkout>, e.g. a scratch worktree with a seeded change): the harness manifest names /repo,
+            # so a copy of the crate with the other path is built into the same target directory.  The registered checks never set VERIF_REPO.
+            import shutil
+            hdir = os.path.join(WORK, "harness_alt")
+            shutil.rmtree(hdir, ignore_errors=True)
+            shutil.copytree(HARNESS, hdir, ignore=shutil.ignore_patterns("target"))
+            mf = os.path.join(hdir, "Cargo.toml")
+            txt = open(mf).read().replace('path = "/repo"', 'path = "%s"' % REPO)
+            open(mf, "w").write(txt)
+            env = {"CARGO_TARGET_DIR": TARGET}
+        rc, out, err, dt = run(cmd, cwd=hdir, timeout=1500, env=env)
         if rc != 0:
             raise BrokenBuild("harness does not build against /repo (feature verif): " + err[-2000:])
         # the real binary, built from the same tree (without the feature)
